@@ -85,7 +85,8 @@ class Rat:
 
 
 class Normaliser:
-    def __init__(self):
+    def __init__(self, sub=None):
+        self.sub = sub or []   # substitution (from hypotheses) applied to the radicands of sqrt symbols as well
         self.atoms = {}        # z3 id -> (index, term)
         self.memo = {}
         self.dens = {}         # denominators met (as z3 terms, by id)
@@ -134,7 +135,9 @@ class Normaliser:
                 i = self.atom(t)
                 if i not in self.sq:
                     self.sq[i] = None
-                    self.sq[i] = self.norm(core.SQRT_OF[t.get_id()])
+                    rad = core.SQRT_OF[t.get_id()]
+                    if self.sub: rad = z3.substitute(rad, *self.sub)
+                    self.sq[i] = self.norm(rad)
                 return Rat(Poly.var(i))
         return Rat(Poly.var(self.atom(t)))
 
@@ -171,7 +174,7 @@ class Normaliser:
         return p
 
 
-def prove_eq(goal):
+def prove_eq(goal, sub=None):
     """goal: z3 equality (or conjunction of equalities) of Real terms.  returns (True, [denominator terms]) or (False, reason)"""
     eqs = []
     def collect(g):
@@ -185,7 +188,7 @@ def prove_eq(goal):
     except ValueError as e:
         return False, str(e)
     if not eqs: return False, 'no equalities'
-    N = Normaliser()
+    N = Normaliser(sub)
     try:
         for e in eqs:
             l, r = N.norm(e.arg(0)), N.norm(e.arg(1))
